@@ -34,14 +34,14 @@ type oracleReq struct {
 var startWall = time.Now()
 
 // currentCall names the library call the (single running) task is inside, for the watchdog report.
-var currentCall [16]atomic.Value
+var currentCall [32]atomic.Value
 
 func setCall(s string) {
 	id := simrt.CurTask()
 	if id < 0 {
 		id = 0
 	}
-	currentCall[id%16].Store(s)
+	currentCall[id%32].Store(s)
 }
 
 var oracleMs sync.Map
@@ -95,7 +95,7 @@ func main() {
 		if id < 0 {
 			id = 0
 		}
-		cur, _ := currentCall[id%16].Load().(string)
+		cur, _ := currentCall[id%32].Load().(string)
 		if os.Args[1] == "run" && cur != "" {
 			emit(&spec.Result{Status: "stuck", Internal: fmt.Sprintf("no return after %d s of wall clock", wd),
 				Violation: &spec.Violation{Class: "NO_PROGRESS", Key: "call did not return: " + strings.SplitN(cur, "(", 2)[0],
